@@ -52,7 +52,7 @@ func c18Check(L *LState, tb *LTable, model []float64, label string) {
 
 // C18.listops — insert/remove/concat/maxn/getn/unpack on a list, with symbolic positions.
 //
-//verif:harness prop=C18 tier=quick qparams=steps:2 tparams=steps:3 bounds="list of n<=3 symbolic numbers; histories of steps (2 quick / 3 thorough) operations from {insert(t,v), insert(t,pos,v) with 1<=pos<=n+1, remove(t), remove(t,pos) with 1<=pos<=n, t[n+1]=v, t[n]=nil}; pos symbolic; then concat/maxn/getn/unpack checked"
+//verif:harness prop=C18 tier=quick qparams=steps:3 tparams=steps:4 bounds="list of n<=3 symbolic numbers; histories of steps (3 quick / 4 thorough) operations from {insert(t,v), insert(t,pos,v) with 1<=pos<=n+1, remove(t), remove(t,pos) with 1<=pos<=n, t[n+1]=v, t[n]=nil}; pos symbolic; then concat/maxn/getn/unpack checked"
 func H_C18_listops() {
 	L := newL(Options{}, BaseLibName, TabLibName)
 	tabmod := L.GetGlobal("table")
@@ -144,6 +144,16 @@ func H_C18_listops() {
 	for i := 0; i < ln && i < L.GetTop()-base; i++ {
 		VAssert(sameValue(L.Get(base+1+i), LNumber(model[i])), "unpack(t) returns the elements in order")
 	}
+	L.SetTop(base)
+	// unpack(t, 1, j) with j beyond the border returns exactly j values, nil padded
+	L.Push(L.GetGlobal("unpack"))
+	L.Push(tb)
+	L.Push(LNumber(1))
+	L.Push(LNumber(ln + 2))
+	base = L.GetTop() - 4
+	VAssert(L.PCall(3, MultRet, nil) == nil, "unpack(t, 1, n+2) succeeds")
+	VAssert(L.GetTop()-base == ln+2, "unpack(t, i, j) returns exactly j-i+1 values")
+	VAssert(L.Get(base+ln+1) == LNil && L.Get(base+ln+2) == LNil, "unpack pads with nil beyond the border")
 	L.SetTop(base)
 	VReach("end")
 }
